@@ -4,7 +4,7 @@ Protocol (one JSON document per line on stdin, one answer per line on stdout):
   {"dump": 1}     -> answers [[system_id, key, value_text], ...] ordered by (system_id, key)
   {"check": 1}    -> answers the rows of PRAGMA integrity_check ([["ok"]] for an intact file)
   {"close": 1}    -> closes the connection
-Texts longer than 200 bytes are replaced by "<long:sha1:length>".  Texts are transported as lists of UTF-8 byte values so that nothing is re-interpreted on the way."""
+Texts longer than 100000 bytes are replaced by "<long:sha1:length>".  Texts are transported as lists of UTF-8 byte values so that nothing is re-interpreted on the way."""
 import hashlib
 import json
 import sqlite3
@@ -15,7 +15,7 @@ def enc(s):
     if not isinstance(s, str):
         return ["?", repr(s)]
     b = s.encode("utf-8", "surrogatepass")
-    if len(b) > 200:     # same digest form as c15.short(): long texts are opaque to the model
+    if len(b) > 100000:     # same digest form as c15.short(): long texts are opaque to the model
         b = b"<long:" + hashlib.sha1(b).hexdigest().encode() + b":" + str(len(b)).encode() + b">"
     return list(b)
 
